@@ -432,7 +432,7 @@ impl Prop for C09 {
         }
     }
     fn rule(&self) -> String {
-        "cases are encodings. [rle16] every sequence of <=3 interleaved-RLE orders (<=4 for shapes up to 4 pixels in thorough) over {all 12 order kinds} x {short, extended, mega-mega forms} x {every run length that fits} x palette {0,0xFFFF,0x1234} that the reference decoder maps onto a complete image of the shape (shapes up to 6 px; larger shapes with <=2 orders to reach extended forms / special orders); [planar32] every plane vector over {0,1,7F,80,FF} for shapes up to 2x2/4x1 x every segmentation of every scan line (one line varied at a time, plus all together), and wide lines (widths 16..141 around the 16/32/47-pixel run escapes and their multiples; constant, flat-zero, opaque-black and patterned images x 8 segmentation strategies) for the long-run escapes; [rle16-encoded] 14 structured image patterns x 8 sizes up to 64x64 x 10 deterministic strategies of a greedy reference encoder (order kinds allowed, preferred spelling, run-length cap); large images whose pixel count passes 2^15 / 2^16 or whose side is 65535, in all four formats; [raw16]/[raw32] bottom-up uncompressed layouts; [widen565] all 65536 colours. Non-trivial: >=2 orders or a non-default segmentation or >=2 rows. Every case is decoded under its full destination rectangle and again under 2..6 other rectangles (a single cell, narrower than the buffer, inverted, 65535-wide, one row): the pixels must not depend on the rectangle.".into()
+        "cases are encodings. [rle16] every sequence of <=3 interleaved-RLE orders (<=4 for shapes up to 4 pixels in thorough) over {all 12 order kinds} x {short, extended, mega-mega forms} x {every run length that fits} x palette {0,0xFFFF,0x1234} that the reference decoder maps onto a complete image of the shape (shapes up to 6 px; larger shapes with <=2 orders to reach extended forms / special orders); [planar32] every plane vector over {0,1,7F,80,FF} for shapes up to 2x2/4x1 x every segmentation of every scan line (one line varied at a time, plus all together), and wide lines (widths 16..141 around the 16/32/47-pixel run escapes and their multiples; constant, flat-zero, opaque-black and patterned images x 8 segmentation strategies) for the long-run escapes; [rle16-encoded] 14 structured image patterns x 8 sizes up to 64x64 x 10 deterministic strategies of a greedy reference encoder (order kinds allowed, preferred spelling, run-length cap); large images whose pixel count passes 2^15 / 2^16 or whose side is 65535, in all four formats; [raw16]/[raw32] bottom-up uncompressed layouts; [widen565] all 65536 colours. Non-trivial: >=2 orders or a non-default segmentation or >=2 rows. Every case is decoded under its full destination rectangle and again under 2..6 other rectangles (a single cell, narrower than the buffer, inverted, 65535-wide, one row): the pixels must not depend on the rectangle. Compressed cases of up to 2^16 pixels are also decoded through the public rle_16_decompress / rle_32_decompress into a buffer pre-filled with 0xAA: same pixels.".into()
     }
     fn assumptions(&self) -> Vec<String> {
         vec![
@@ -518,6 +518,7 @@ impl Prop for C09 {
                 }
             }
         }
+        let data2 = if compress { data.clone() } else { vec![] };
         let ev = BitmapEvent { dest_left: 0, dest_top: 0, dest_right: w.wrapping_sub(1), dest_bottom: h.wrapping_sub(1), width: w, height: h, bpp, is_compress: compress, data };
         match ev.decompress() {
             Err(e) => Outcome::fail("error", format!("conformant-encoding-rejected-{}", kind.split('-').next().unwrap_or("")), format!("decompress returned {:?} for a conformant {} encoding", e, kind)),
@@ -531,6 +532,25 @@ impl Prop for C09 {
                         _ => format!("{}-wrong-pixels", short),
                     };
                     return Outcome::fail("mismatch", sig, format!("{}: {}x{} output differs from the reference at byte {} (got len {}, want len {}; got {:02x?} want {:02x?})", kind, w, h, first, v.len(), want.len(), &v[first.min(v.len())..(first + 8).min(v.len())], &want[first.min(want.len())..(first + 8).min(want.len())]));
+                }
+                // the decoders are public: a caller may hand them a buffer that still holds another image (a conformant
+                // stream defines every pixel, so the result does not depend on what was there)
+                if compress && w > 0 && h > 0 && (w as usize) * (h as usize) <= 1 << 16 {
+                    let dirty = if bpp == 32 {
+                        let mut out = vec![0xAAu8; w as usize * h as usize * 4];
+                        rdp::codec::rle::rle_32_decompress(&data2, w as u32, h as u32, &mut out).map(|_| out)
+                    } else {
+                        let mut out = vec![0xAAAAu16; w as usize * h as usize * 2];
+                        rdp::codec::rle::rle_16_decompress(&data2, w as usize, h as usize, &mut out).map(|_| rdp::codec::rle::rgb565torgb32(&out, w as usize, h as usize))
+                    };
+                    match dirty {
+                        Ok(v) if v == want => {}
+                        Ok(v) => {
+                            let first = v.iter().zip(want.iter()).position(|(a, b)| a != b).unwrap_or(0);
+                            return Outcome::fail("mismatch", format!("{}-depends-on-the-previous-content-of-the-output-buffer", kind.split('-').next().unwrap_or("")), format!("{}: {}x{} decoded into a buffer pre-filled with 0xAA differs from the reference at byte {}", kind, w, h, first));
+                        }
+                        Err(e) => return Outcome::fail("mismatch", format!("{}-depends-on-the-previous-content-of-the-output-buffer", kind.split('-').next().unwrap_or("")), format!("{}: direct decode into a pre-filled buffer failed: {:?}", kind, e)),
+                    }
                 }
                 Outcome::pass(kind, nontrivial)
             }
